@@ -606,3 +606,66 @@ func describeExitDeep(ret *ssa.Return, fr *frame) string {
 	}
 	return describeExit(ret)
 }
+
+// originsDeep is origins() that also looks through calls to same-package helpers: a value returned by a
+// helper originates from what the helper returns, and a helper parameter from the argument passed for it.
+func originsDeep(v ssa.Value, depth int) []ssa.Value {
+	var out []ssa.Value
+	for _, o := range origins(v) {
+		var call *ssa.Call
+		idx := 0
+		switch x := o.(type) {
+		case *ssa.Call:
+			call = x
+		case *ssa.Extract:
+			if c, ok := x.Tuple.(*ssa.Call); ok {
+				call, idx = c, x.Index
+			}
+		}
+		var h *ssa.Function
+		if call != nil && depth > 0 {
+			h = samePkgHelper(call.Parent(), call)
+		}
+		if h == nil {
+			out = append(out, o)
+			continue
+		}
+		for _, ret := range returnsOf(h) {
+			vals, _ := resultVals(ret, idx)
+			for _, rv := range vals {
+				for _, ho := range originsDeep(rv, depth-1) {
+					out = append(out, substParamDeep(ho, h, call, depth-1)...)
+				}
+			}
+		}
+	}
+	return out
+}
+
+// substParamDeep: if o is rooted at a parameter of helper h (the parameter itself, or a field / element read
+// from it), continue at the argument passed at call.
+func substParamDeep(o ssa.Value, h *ssa.Function, call *ssa.Call, depth int) []ssa.Value {
+	base := o
+	for i := 0; i < 8; i++ {
+		switch x := base.(type) {
+		case *ssa.UnOp:
+			base = x.X
+			continue
+		case *ssa.FieldAddr:
+			base = x.X
+			continue
+		case *ssa.Field:
+			base = x.X
+			continue
+		}
+		break
+	}
+	if prm, ok := base.(*ssa.Parameter); ok && prm.Parent() == h && base == o {
+		for k, p := range h.Params {
+			if p == prm && k < len(call.Call.Args) {
+				return originsDeep(call.Call.Args[k], depth)
+			}
+		}
+	}
+	return []ssa.Value{o}
+}
